@@ -166,6 +166,9 @@ package allocator
 //@   ensures bits(a.bitmap) == locked(bits(a.bitmap)) && bigval(a.allocatedCount) == locked(bigval(a.allocatedCount)) && bigval(a.nextFree) == locked(bigval(a.nextFree)) && card(a.allocated) == locked(card(a.allocated)) && card(a.indexToSubscriber) == locked(card(a.indexToSubscriber))
 
 //@ func (a *IPAllocator) Stats
+//@   modifies a.bitmap, a.allocatedCount, a.nextFree, a.allocated, a.indexToSubscriber
+//@   ensures a.bitmap == locked(a.bitmap) && a.allocatedCount == locked(a.allocatedCount) && a.nextFree == locked(a.nextFree) && a.allocated == locked(a.allocated) && a.indexToSubscriber == locked(a.indexToSubscriber)
+//@   ensures a.nonnil && a.distinct && a.total && a.fwd && a.rev && a.bits && a.cnt
 //@   ensures allocated == locked(card(a.allocated)) % 18446744073709551616 && total == locked(bigval(a.totalPrefixes))
 
 // ---- distributed.go: agreement between the local allocator and the store (C12) ----
@@ -286,24 +289,312 @@ package allocator
 //@ loop DistributedAllocator.loadAllocations#1
 //@   invariant da.allocator.nonnil && da.allocator.distinct && da.allocator.total && da.allocator.fwd && da.allocator.rev && da.allocator.bits && da.allocator.cnt
 
-// Lease mode is outside these contracts (requires sessionMode), but the
-// DistributedAllocator methods contain the lease branch; thin TRUSTED frames
-// keep that dead branch from forgetting the heap. To be replaced by verified
-// EpochBitmapAllocator contracts (C01/C05).
-//@ func (a *EpochBitmapAllocator) Allocate
-//@   trusted frame only: touches the epoch allocator's own state
-//@   modifies a.generations, a.subscribers, a.ipToSubscriber, a.currentEpoch, a.nextFreeHint
-//@ func (a *EpochBitmapAllocator) Release
-//@   trusted frame only: touches the epoch allocator's own state
-//@   modifies a.generations, a.subscribers, a.ipToSubscriber, a.currentEpoch, a.nextFreeHint
-//@ func (a *EpochBitmapAllocator) Lookup
-//@   trusted frame only: touches the epoch allocator's own state
-//@   modifies a.generations, a.subscribers, a.ipToSubscriber, a.currentEpoch, a.nextFreeHint
-//@ func (a *EpochBitmapAllocator) GetCurrentEpoch
-//@   trusted frame only: reads the epoch counter
+// ---- epoch_bitmap.go: EpochBitmapAllocator, lease mode (C01, C05) ----
+//
+// Abstract view: owner = ipToSubscriber (address index -> subscriber), subscribers is its
+// inverse. An index is held exactly when it is in the domain of ipToSubscriber; the 2-bit
+// generation tag of a held index records the epoch (mod 4) of the last allocation/renewal.
+// genOf is the tag of an index in the packed byte array, ageOf the number of epochs (mod 4)
+// since the tag was written. Indices 0 (network) and totalIPs-1 (broadcast) are never held.
+// (The DistributedAllocator contracts above require session mode; its lease branch calls
+// these functions through the contracts below.)
+
+//@ pure func gen2(b mathint, r mathint) mathint = ite(r == 0, b % 4, ite(r == 1, (b / 4) % 4, ite(r == 2, (b / 16) % 4, (b / 64) % 4)))
+//@ pure func genOf(a *EpochBitmapAllocator, idx mathint) mathint = gen2(a.generations[idx/4], idx % 4)
+//@ pure func ageOf(a *EpochBitmapAllocator, idx mathint) mathint = (a.currentEpoch % 4 - genOf(a, idx) + 4) % 4
+
+//@ type EpochBitmapAllocator
+//@   owns mu: generations subscribers ipToSubscriber currentEpoch nextFreeHint
+//@   inv nonnil: self.subscribers != nil && self.ipToSubscriber != nil
+//@   inv geom: 1 <= self.totalIPs && self.totalIPs <= 4294967296 && self.totalIPs <= 4 * len(self.generations) && 1 <= self.gracePeriod && self.gracePeriod <= 2
+//@   inv hint: 0 <= self.nextFreeHint && self.nextFreeHint <= self.totalIPs
+//@   inv fwd: forall s string :: s in self.subscribers ==> 1 <= self.subscribers[s] && self.subscribers[s] < self.totalIPs - 1 && self.subscribers[s] in self.ipToSubscriber && self.ipToSubscriber[self.subscribers[s]] == s
+//@   inv rev: forall i uint64 :: i in self.ipToSubscriber ==> self.ipToSubscriber[i] in self.subscribers && self.subscribers[self.ipToSubscriber[i]] == i
+//@   inv cnt: card(self.subscribers) == card(self.ipToSubscriber)
+//@   inv live: forall s string :: s in self.subscribers ==> ageOf(self, self.subscribers[s]) <= self.gracePeriod
+
+//@ func (a *EpochBitmapAllocator) currentGeneration
+//@   pure
+//@   modifies nothing
+//@   ensures result == a.currentEpoch % 4
+
+//@ func (a *EpochBitmapAllocator) freeThreshold
+//@   pure
 //@   modifies nothing
 
-// ---- pool_allocator.go as seen by the DHCPv6 server (C02): frame only ----
-//@ func (p *PoolAllocator) Release
-//@   trusted external-allocator mode: touches the allocator's own tables and its store only
+//@ func (a *EpochBitmapAllocator) isGenerationFree
+//@   requires 0 <= gen && gen <= 3 && a.gracePeriod <= 255
+//@   pure
 //@   modifies nothing
+//@   ensures result == ((a.currentEpoch % 4 - gen + 4) % 4 > a.gracePeriod)
+
+//@ func (a *EpochBitmapAllocator) getGeneration
+//@   requires 0 <= idx && idx < 4 * len(a.generations)
+//@   pure
+//@   modifies nothing
+//@   ensures result == genOf(a, idx) && 0 <= result && result <= 3
+
+// setGeneration: bit packing with a variable mask (x &^ (3 << s) | g << s) is outside the
+// engine's arithmetic model of bitwise operators; the contract is TRUSTED and confirmed by
+// exhaustive enumeration of every byte value x slot x generation in
+// replays/inspection_EpochBitmapAllocator_setGeneration_exhaustive.go.
+//@ func (a *EpochBitmapAllocator) setGeneration
+//@   trusted bit packing; see the exhaustive enumeration test
+//@   requires 0 <= idx && idx < 4 * len(a.generations)
+//@   modifies a.generations
+//@   ensures a.generations == old(a.generations)
+//@   ensures elems(a.generations) == old(elems(a.generations))[off(a.generations) + idx/4 := a.generations[idx/4]]
+//@   ensures 0 <= a.generations[idx/4] && a.generations[idx/4] <= 255
+//@   ensures gen2(a.generations[idx/4], idx % 4) == gen % 4
+//@   ensures idx % 4 != 0 ==> gen2(a.generations[idx/4], 0) == old(gen2(a.generations[idx/4], 0))
+//@   ensures idx % 4 != 1 ==> gen2(a.generations[idx/4], 1) == old(gen2(a.generations[idx/4], 1))
+//@   ensures idx % 4 != 2 ==> gen2(a.generations[idx/4], 2) == old(gen2(a.generations[idx/4], 2))
+//@   ensures idx % 4 != 3 ==> gen2(a.generations[idx/4], 3) == old(gen2(a.generations[idx/4], 3))
+
+//@ func (a *EpochBitmapAllocator) indexToIP
+//@   modifies nothing
+//@   ensures result != nil && fresh(result) && len(result) == 4
+
+//@ func (a *EpochBitmapAllocator) ipToIndex
+//@   modifies nothing
+//@   ensures err == nil ==> 0 <= result && result < a.totalIPs
+
+//@ func NewEpochBitmapAllocator
+//@   modifies nothing
+//@   ensures err == nil ==> result != nil && fresh(result) && fresh(result.subscribers) && fresh(result.ipToSubscriber) && fresh(result.generations)
+//@   ensures err == nil ==> result.nonnil
+//@   ensures err == nil ==> result.geom
+//@   ensures err == nil ==> result.hint
+//@   ensures err == nil ==> card(result.subscribers) == 0 && card(result.ipToSubscriber) == 0 && forall s string :: !(s in result.subscribers)
+//@   ensures err == nil ==> forall i uint64 :: !(i in result.ipToSubscriber)
+//@   ensures err == nil ==> result.fwd && result.rev && result.live
+//@   ensures err == nil ==> result.cnt
+
+// Allocate (C01): a subscriber that holds an address gets the same index again, both tables
+// are unchanged (the lease is renewed: only that index's generation tag changes). A new
+// subscriber gets an index that nobody held, inside [1, totalIPs-2]; every other binding is
+// untouched. (C05): ErrPoolExhausted only if every usable index is held; then nothing changed.
+//@ func (a *EpochBitmapAllocator) Allocate
+//@   indep
+//@   modifies a.generations, a.subscribers, a.ipToSubscriber, a.nextFreeHint
+//@   ensures a.generations == locked(a.generations) && a.subscribers == locked(a.subscribers) && a.ipToSubscriber == locked(a.ipToSubscriber) && a.currentEpoch == locked(a.currentEpoch)
+//@   ensures a.nonnil && a.geom && a.hint && a.cnt
+//@   ensures a.fwd
+//@   ensures a.rev
+//@   ensures locked(subscriberID in a.subscribers) ==> err == nil && result != nil
+//@   ensures locked(subscriberID in a.subscribers) ==> dom(a.subscribers) == locked(dom(a.subscribers)) && vals(a.subscribers) == locked(vals(a.subscribers)) && dom(a.ipToSubscriber) == locked(dom(a.ipToSubscriber)) && vals(a.ipToSubscriber) == locked(vals(a.ipToSubscriber))
+//@   ensures err == nil ==> result != nil && subscriberID in a.subscribers
+//@   ensures err == nil ==> genOf(a, a.subscribers[subscriberID]) == a.currentEpoch % 4
+//@   ensures !locked(subscriberID in a.subscribers) && err == nil ==> 1 <= a.subscribers[subscriberID] && a.subscribers[subscriberID] < a.totalIPs - 1 && !(a.subscribers[subscriberID] in locked(dom(a.ipToSubscriber)))
+//@   ensures !locked(subscriberID in a.subscribers) && err == nil ==> dom(a.subscribers) == locked(dom(a.subscribers))[subscriberID := true] && vals(a.subscribers) == locked(vals(a.subscribers))[subscriberID := a.subscribers[subscriberID]]
+//@   ensures !locked(subscriberID in a.subscribers) && err == nil ==> dom(a.ipToSubscriber) == locked(dom(a.ipToSubscriber))[a.subscribers[subscriberID] := true] && vals(a.ipToSubscriber) == locked(vals(a.ipToSubscriber))[a.subscribers[subscriberID] := subscriberID]
+//@   ensures forall s string :: s in a.subscribers && s != subscriberID ==> ageOf(a, a.subscribers[s]) == locked(ageOf(a, a.subscribers[s]))
+//@   ensures err != nil ==> isErr(err, ErrPoolExhausted) && !locked(subscriberID in a.subscribers) && forall i uint64 :: 1 <= i && i < a.totalIPs - 1 ==> i in locked(dom(a.ipToSubscriber))
+//@   ensures err != nil ==> dom(a.subscribers) == locked(dom(a.subscribers)) && vals(a.subscribers) == locked(vals(a.subscribers)) && dom(a.ipToSubscriber) == locked(dom(a.ipToSubscriber)) && vals(a.ipToSubscriber) == locked(vals(a.ipToSubscriber))
+
+//@ loop EpochBitmapAllocator.Allocate#1
+//@   invariant a.nonnil && a.geom && a.hint && a.fwd && a.rev && a.cnt && a.live
+//@   invariant a.generations == locked(a.generations) && a.subscribers == locked(a.subscribers) && a.ipToSubscriber == locked(a.ipToSubscriber) && a.currentEpoch == locked(a.currentEpoch) && a.nextFreeHint == locked(a.nextFreeHint)
+//@   invariant dom(a.subscribers) == locked(dom(a.subscribers)) && vals(a.subscribers) == locked(vals(a.subscribers)) && dom(a.ipToSubscriber) == locked(dom(a.ipToSubscriber)) && vals(a.ipToSubscriber) == locked(vals(a.ipToSubscriber))
+//@   invariant elems(a.generations) == locked(elems(a.generations))
+//@   invariant !(subscriberID in a.subscribers)
+//@   invariant 0 <= i && i <= a.totalIPs
+//@   invariant forall k uint64 :: a.nextFreeHint <= k && k < a.nextFreeHint + i && 1 <= k && k < a.totalIPs - 1 ==> k in a.ipToSubscriber
+//@   invariant forall k uint64 :: 1 <= k && k + a.totalIPs < a.nextFreeHint + i && k < a.totalIPs - 1 ==> k in a.ipToSubscriber
+
+// Renew: the subscriber's generation becomes the current one; tables unchanged.
+//@ func (a *EpochBitmapAllocator) Renew
+//@   indep
+//@   modifies a.generations
+//@   ensures a.generations == locked(a.generations)
+//@   ensures a.nonnil && a.geom && a.hint && a.fwd && a.rev && a.cnt && a.live
+//@   ensures (err == nil) == locked(subscriberID in a.subscribers)
+//@   ensures err == nil ==> ageOf(a, a.subscribers[subscriberID]) == 0
+//@   ensures dom(a.subscribers) == locked(dom(a.subscribers)) && vals(a.subscribers) == locked(vals(a.subscribers)) && dom(a.ipToSubscriber) == locked(dom(a.ipToSubscriber)) && vals(a.ipToSubscriber) == locked(vals(a.ipToSubscriber))
+//@   ensures forall s string :: s in a.subscribers && s != subscriberID ==> ageOf(a, a.subscribers[s]) == locked(ageOf(a, a.subscribers[s]))
+
+// Release (C05): exactly the subscriber's index becomes free again, every other binding is
+// untouched, both counts drop by one; releasing a subscriber that holds nothing changes nothing.
+//@ func (a *EpochBitmapAllocator) Release
+//@   indep
+//@   modifies a.generations, a.subscribers, a.ipToSubscriber, a.nextFreeHint
+//@   ensures a.generations == locked(a.generations) && a.subscribers == locked(a.subscribers) && a.ipToSubscriber == locked(a.ipToSubscriber)
+//@   ensures a.nonnil && a.geom && a.hint && a.fwd && a.rev && a.cnt && a.live
+//@   ensures err == nil
+//@   ensures locked(subscriberID in a.subscribers) ==> dom(a.subscribers) == locked(dom(a.subscribers))[subscriberID := false] && dom(a.ipToSubscriber) == locked(dom(a.ipToSubscriber))[locked(a.subscribers[subscriberID]) := false]
+//@   ensures locked(subscriberID in a.subscribers) ==> card(a.subscribers) == locked(card(a.subscribers)) - 1 && card(a.ipToSubscriber) == locked(card(a.ipToSubscriber)) - 1
+//@   ensures forall s string :: s != subscriberID ==> a.subscribers[s] == locked(a.subscribers[s])
+//@   ensures forall i uint64 :: i in a.ipToSubscriber ==> a.ipToSubscriber[i] == locked(a.ipToSubscriber[i])
+//@   ensures !locked(subscriberID in a.subscribers) ==> dom(a.subscribers) == locked(dom(a.subscribers)) && vals(a.subscribers) == locked(vals(a.subscribers)) && dom(a.ipToSubscriber) == locked(dom(a.ipToSubscriber)) && vals(a.ipToSubscriber) == locked(vals(a.ipToSubscriber)) && card(a.subscribers) == locked(card(a.subscribers))
+//@   ensures forall s string :: s in a.subscribers ==> ageOf(a, a.subscribers[s]) == locked(ageOf(a, a.subscribers[s]))
+
+// SetAllocation (reload / remote announcement, C01): on success the subscriber holds the index
+// of the given address, which nobody else held; an index the subscriber held before is free
+// again; every other binding is untouched; on failure nothing changes. (That the index is the
+// one of ip is decided up to ipToIndex, whose byte arithmetic is under a range contract only.)
+//@ func (a *EpochBitmapAllocator) SetAllocation
+//@   indep
+//@   requires ip != nil
+//@   modifies a.generations, a.subscribers, a.ipToSubscriber, a.nextFreeHint
+//@   ensures a.generations == locked(a.generations) && a.subscribers == locked(a.subscribers) && a.ipToSubscriber == locked(a.ipToSubscriber)
+//@   ensures err == nil ==> subscriberID in a.subscribers && 1 <= a.subscribers[subscriberID] && a.subscribers[subscriberID] < a.totalIPs - 1 && ageOf(a, a.subscribers[subscriberID]) == 0
+//@   ensures err == nil ==> dom(a.subscribers) == locked(dom(a.subscribers))[subscriberID := true] && vals(a.subscribers) == locked(vals(a.subscribers))[subscriberID := a.subscribers[subscriberID]]
+//@   ensures err == nil ==> !(a.subscribers[subscriberID] in locked(dom(a.ipToSubscriber))) || locked(a.ipToSubscriber[a.subscribers[subscriberID]]) == subscriberID
+//@   ensures err == nil && !locked(subscriberID in a.subscribers) ==> dom(a.ipToSubscriber) == locked(dom(a.ipToSubscriber))[a.subscribers[subscriberID] := true] && vals(a.ipToSubscriber) == locked(vals(a.ipToSubscriber))[a.subscribers[subscriberID] := subscriberID]
+//@   ensures err == nil && locked(subscriberID in a.subscribers) ==> dom(a.ipToSubscriber) == locked(dom(a.ipToSubscriber))[locked(a.subscribers[subscriberID]) := false][a.subscribers[subscriberID] := true]
+//@   ensures forall s string :: s in a.subscribers && s != subscriberID ==> ageOf(a, a.subscribers[s]) == locked(ageOf(a, a.subscribers[s]))
+//@   ensures err != nil ==> dom(a.subscribers) == locked(dom(a.subscribers)) && vals(a.subscribers) == locked(vals(a.subscribers)) && dom(a.ipToSubscriber) == locked(dom(a.ipToSubscriber)) && vals(a.ipToSubscriber) == locked(vals(a.ipToSubscriber)) && elems(a.generations) == locked(elems(a.generations))
+
+//@ func (a *EpochBitmapAllocator) Lookup
+//@   indep
+//@   modifies nothing
+//@   ensures (result != nil) == locked(subscriberID in a.subscribers)
+
+//@ func (a *EpochBitmapAllocator) LookupByIP
+//@   requires ip != nil
+//@   modifies nothing
+//@   ensures result != "" ==> locked(result in a.subscribers)
+
+//@ func (a *EpochBitmapAllocator) GetCurrentEpoch
+//@   modifies nothing
+//@   ensures result == locked(a.currentEpoch)
+
+// AdvanceEpoch (C05): the epoch moves on by one; a lease whose age is still within the grace
+// period is kept with its index (never reclaimed), every other lease is removed together with
+// its reverse entry, i.e. its address is free again.
+//@ func (a *EpochBitmapAllocator) AdvanceEpoch
+//@   indep
+//@   modifies a.subscribers, a.ipToSubscriber, a.currentEpoch, a.nextFreeHint
+//@   ensures a.generations == locked(a.generations) && a.subscribers == locked(a.subscribers) && a.ipToSubscriber == locked(a.ipToSubscriber)
+//@   ensures a.nonnil && a.geom && a.hint && a.fwd && a.rev && a.cnt && a.live
+//@   ensures a.currentEpoch == (locked(a.currentEpoch) + 1) % 18446744073709551616 && result == a.currentEpoch
+//@   ensures forall s string :: s in a.subscribers ==> locked(s in a.subscribers) && a.subscribers[s] == locked(a.subscribers[s])
+//@   ensures forall s string :: locked(s in a.subscribers) && locked(ageOf(a, a.subscribers[s])) + 1 <= a.gracePeriod ==> s in a.subscribers
+//@   ensures forall s string :: locked(s in a.subscribers) && locked(ageOf(a, a.subscribers[s])) + 1 > a.gracePeriod ==> !(s in a.subscribers) && !(locked(a.subscribers[s]) in a.ipToSubscriber)
+
+//@ loop EpochBitmapAllocator.AdvanceEpoch#1
+//@   invariant a.nonnil && a.geom && a.hint && a.fwd && a.rev && a.cnt
+//@   invariant a.generations == locked(a.generations) && a.subscribers == locked(a.subscribers) && a.ipToSubscriber == locked(a.ipToSubscriber) && a.currentEpoch == (locked(a.currentEpoch) + 1) % 18446744073709551616 && elems(a.generations) == locked(elems(a.generations))
+//@   invariant a.currentEpoch % 4 == (locked(a.currentEpoch) % 4 + 1) % 4
+//@   invariant forall s string :: s in a.subscribers ==> locked(s in a.subscribers) && a.subscribers[s] == locked(a.subscribers[s])
+//@   invariant forall s string :: locked(s in a.subscribers) && !(s in visited) ==> s in a.subscribers
+//@   invariant forall s string :: locked(s in a.subscribers) && s in visited && locked(ageOf(a, a.subscribers[s])) + 1 <= a.gracePeriod ==> s in a.subscribers
+//@   invariant forall s string :: locked(s in a.subscribers) && s in visited && locked(ageOf(a, a.subscribers[s])) + 1 > a.gracePeriod ==> !(s in a.subscribers) && !(locked(a.subscribers[s]) in a.ipToSubscriber)
+//@   invariant forall s string :: locked(s in a.subscribers) ==> locked(ageOf(a, a.subscribers[s])) <= a.gracePeriod
+
+// UnmarshalJSON (reload): whatever the document says, a successfully restored allocator
+// satisfies the representation invariant (both tables rebuilt from the subscriber map, indices
+// inside the pool, no index held twice, no expired lease): these are the lockinv obligations at
+// the Unlock. Restored bindings come from the document's subscriber map.
+//@ func (a *EpochBitmapAllocator) UnmarshalJSON
+//@   ensures err == nil ==> a.nonnil && a.geom && a.hint && a.cnt
+//@   ensures err == nil ==> a.fwd
+//@   ensures err == nil ==> a.rev
+//@   ensures err == nil ==> forall s string :: s in a.subscribers ==> s in state.Subscribers && a.subscribers[s] == state.Subscribers[s]
+
+//@ loop EpochBitmapAllocator.UnmarshalJSON#1
+//@   invariant temp != nil && temp != a && temp.nonnil && temp.geom && temp.hint && temp.cnt
+//@   invariant fresh(temp) && fresh(temp.subscribers) && fresh(temp.ipToSubscriber)
+//@   invariant temp.fwd
+//@   invariant temp.rev
+//@   invariant temp.live
+//@   invariant temp.generations == state.Generations && temp.currentEpoch == state.CurrentEpoch
+//@   invariant forall s string :: s in temp.subscribers ==> s in state.Subscribers && temp.subscribers[s] == state.Subscribers[s]
+
+//@ func (a *EpochBitmapAllocator) MarshalJSON
+//@   modifies nothing
+
+// Stats (C05): the allocated figure is exactly the number of subscribers holding a lease, the
+// total is the number of usable indices.
+//@ func (a *EpochBitmapAllocator) Stats
+//@   modifies nothing
+//@   ensures allocated == locked(card(a.subscribers)) && allocated == locked(card(a.ipToSubscriber))
+//@   ensures a.totalIPs > 2 ==> total == a.totalIPs - 2
+//@   ensures a.totalIPs <= 2 ==> total == 0
+
+// ---- store.go: PoolAllocator, an IPAllocator backed by an AllocationStore (C01, C05) ----
+//
+// The store is an interface whose methods fail nondeterministically; ghost counters record the
+// writes that reached it (a call that returns an error had no effect - assumed). mu serialises
+// Allocate/Release, so the calls into the IPAllocator are seen sequentially (mode seq).
+// (The DHCPv6 server calls Release / AllocateWithOptions through these contracts.)
+
+//@ ghostvar recSaves, recRemoves
+
+//@ iface AllocationStore.SaveAllocation(ctx, alloc)
+//@   modifies recSaves
+//@   ensures err == nil ==> recSaves == old(recSaves) + 1
+//@   ensures err != nil ==> recSaves == old(recSaves)
+
+//@ iface AllocationStore.RemoveAllocation(ctx, poolID, subscriberID)
+//@   modifies recRemoves
+//@   ensures err == nil ==> recRemoves == old(recRemoves) + 1
+//@   ensures err != nil ==> recRemoves == old(recRemoves)
+
+//@ pure func poolReady(p *PoolAllocator) bool =
+//@     p.allocator != nil && p.store != nil && p.allocator.nonnil && p.allocator.distinct && p.allocator.total && p.allocator.fwd && p.allocator.rev && p.allocator.bits && p.allocator.cnt
+
+// mu guards the pair (allocator, store): whoever holds it finds the allocator consistent
+// (ready is assumed at Lock and asserted at every Unlock; NewPoolAllocatorWithType establishes it).
+//@ type PoolAllocator
+//@   owns mu:
+//@   inv ready: poolReady(self)
+
+// AllocateWithOptions: on success the subscriber holds the returned prefix and exactly one
+// record was written; a subscriber that already held a prefix keeps it whatever the store
+// does (idempotence; a failed write must not take it away); when the write fails for a new
+// subscriber the allocation is undone completely (the prefix is back in circulation).
+//@ func (p *PoolAllocator) AllocateWithOptions
+//@   mode seq
+//@   indep
+//@   modifies p.allocator.bitmap, p.allocator.allocatedCount, p.allocator.nextFree, p.allocator.allocated, p.allocator.indexToSubscriber, recSaves
+//@   ensures err == nil ==> result != nil && opts.SubscriberID in p.allocator.allocated && recSaves == old(recSaves) + 1
+//@   ensures err != nil ==> recSaves == old(recSaves)
+//@   ensures old(opts.SubscriberID in p.allocator.allocated) ==> dom(p.allocator.allocated) == old(dom(p.allocator.allocated)) && vals(p.allocator.allocated) == old(vals(p.allocator.allocated)) && bits(p.allocator.bitmap) == old(bits(p.allocator.bitmap)) && bigval(p.allocator.allocatedCount) == old(bigval(p.allocator.allocatedCount))
+//@   ensures err != nil && !old(opts.SubscriberID in p.allocator.allocated) ==> dom(p.allocator.allocated) == old(dom(p.allocator.allocated)) && dom(p.allocator.indexToSubscriber) == old(dom(p.allocator.indexToSubscriber)) && bits(p.allocator.bitmap) == old(bits(p.allocator.bitmap)) && bigval(p.allocator.allocatedCount) == old(bigval(p.allocator.allocatedCount))
+//@   ensures err != nil && !old(opts.SubscriberID in p.allocator.allocated) ==> forall s string :: s in p.allocator.allocated ==> p.allocator.allocated[s] == old(p.allocator.allocated[s])
+//@   ensures !old(opts.SubscriberID in p.allocator.allocated) && err == nil ==> dom(p.allocator.allocated) == old(dom(p.allocator.allocated))[opts.SubscriberID := true] && !old(bits(p.allocator.bitmap))[p.allocator.allocated[opts.SubscriberID]] && forall s string :: s != opts.SubscriberID ==> p.allocator.allocated[s] == old(p.allocator.allocated[s])
+
+//@ func (p *PoolAllocator) Allocate
+//@   mode seq
+//@   modifies p.allocator.bitmap, p.allocator.allocatedCount, p.allocator.nextFree, p.allocator.allocated, p.allocator.indexToSubscriber, recSaves
+//@   ensures err == nil ==> result != nil && subscriberID in p.allocator.allocated && recSaves == old(recSaves) + 1
+//@   ensures err != nil ==> recSaves == old(recSaves)
+//@   ensures old(subscriberID in p.allocator.allocated) ==> dom(p.allocator.allocated) == old(dom(p.allocator.allocated)) && vals(p.allocator.allocated) == old(vals(p.allocator.allocated)) && bits(p.allocator.bitmap) == old(bits(p.allocator.bitmap))
+//@   ensures err != nil && !old(subscriberID in p.allocator.allocated) ==> dom(p.allocator.allocated) == old(dom(p.allocator.allocated)) && bits(p.allocator.bitmap) == old(bits(p.allocator.bitmap))
+
+// Release: on success the subscriber is gone locally and its record was removed; on failure
+// (store refused, or nothing was allocated) memory and store are unchanged and still agree.
+//@ func (p *PoolAllocator) Release
+//@   mode seq
+//@   indep
+//@   modifies p.allocator.bitmap, p.allocator.allocatedCount, p.allocator.nextFree, p.allocator.allocated, p.allocator.indexToSubscriber, recRemoves
+//@   ensures err == nil ==> old(subscriberID in p.allocator.allocated) && !(subscriberID in p.allocator.allocated) && recRemoves == old(recRemoves) + 1
+//@   ensures err == nil ==> dom(p.allocator.allocated) == old(dom(p.allocator.allocated))[subscriberID := false] && bits(p.allocator.bitmap) == old(bits(p.allocator.bitmap))[old(p.allocator.allocated[subscriberID]) := false] && bigval(p.allocator.allocatedCount) == old(bigval(p.allocator.allocatedCount)) - 1
+//@   ensures forall s string :: s != subscriberID ==> p.allocator.allocated[s] == old(p.allocator.allocated[s])
+//@   ensures err != nil ==> recRemoves == old(recRemoves) && dom(p.allocator.allocated) == old(dom(p.allocator.allocated)) && dom(p.allocator.indexToSubscriber) == old(dom(p.allocator.indexToSubscriber)) && bits(p.allocator.bitmap) == old(bits(p.allocator.bitmap)) && bigval(p.allocator.allocatedCount) == old(bigval(p.allocator.allocatedCount))
+//@   ensures !old(subscriberID in p.allocator.allocated) ==> err != nil
+
+//@ func (p *PoolAllocator) Lookup
+//@   modifies p.allocator.bitmap, p.allocator.allocatedCount, p.allocator.nextFree, p.allocator.allocated, p.allocator.indexToSubscriber
+
+// Stats: the figures are the allocator's (exact counts, see IPAllocator.Stats).
+//@ func (p *PoolAllocator) Stats
+//@   modifies p.allocator.bitmap, p.allocator.allocatedCount, p.allocator.nextFree, p.allocator.allocated, p.allocator.indexToSubscriber
+
+//@ type MemoryAllocationStore
+//@   owns mu: byPool bySubscriber byIP poolTotals
+
+//@ func (s *MemoryAllocationStore) SetPoolTotal
+//@   modifies s.byPool, s.bySubscriber, s.byIP, s.poolTotals
+
+//@ func (a *IPAllocator) IsIPv6
+//@   modifies nothing
+
+// NewPoolAllocatorWithType: the allocator comes from NewIPAllocator (whose contract gives the
+// IPAllocator invariant). That PoolAllocator.ready holds for the result is NOT claimed here: the
+// constructor calls memStore.SetPoolTotal and alloc.Stats, both of which take a mutex, and the
+// monitor model lets the values read after a Lock alias the maps of the freshly built allocator
+// (engine limit: thread-local freshness is not tracked across Lock). See report, Undecided.
+//@ func NewPoolAllocatorWithType
+//@   ensures err == nil ==> result != nil && fresh(result) && result.allocator != nil && result.store == cfg.Store
